@@ -3,6 +3,15 @@ From Coq Require Import List Bool ZArith.
 From BiomV Require Import Base.Tree Base.ListUtil Base.Matrix Model.Table Model.Sparse Model.Hdf5.
 Import ListNotations.
 
+(* 64 bit patterns do not fit the driver's native integers: a value crosses the wire as
+   L [I hi; I lo]  with  value = hi * 2^32 + lo,  0 <= lo < 2^32 *)
+Definition tBig (t : Tree) : Z := (tZ (tnth t 0) * 4294967296 + tZ (tnth t 1))%Z.
+Definition eBig (z : Z) : Tree := L [I (z / 4294967296)%Z; I (z mod 4294967296)%Z].
+Definition tBigs (t : Tree) : list Z := map tBig (tL t).
+Definition eBigs (l : list Z) : Tree := L (map eBig l).
+Definition tCSbig (t : Tree) : cs :=
+  mkCS (tN (tnth t 0)) (tN (tnth t 1)) (tLN (tnth t 2)) (tLN (tnth t 3)) (tBigs (tnth t 4)).
+
 Definition tStrs (t : Tree) : list (list Z) := map tLZ (tL t).
 Definition eStrs (l : list (list Z)) : Tree := L (map eLZ l).
 
@@ -10,8 +19,8 @@ Definition eStrs (l : list (list Z)) : Tree := L (map eLZ l).
 Definition tMdval (t : Tree) : mdval :=
   match tZ (tnth t 0) with
   | 1%Z => MStr (tLZ (tnth t 1))
-  | 2%Z => MInt (tZ (tnth t 1))
-  | 3%Z => MFloat (tZ (tnth t 1))
+  | 2%Z => MInt (tBig (tnth t 1))
+  | 3%Z => MFloat (tBig (tnth t 1))
   | 4%Z => MBool (tB (tnth t 1))
   | 5%Z => MList (tStrs (tnth t 1))
   | _ => MNone
@@ -20,8 +29,8 @@ Definition eMdval (v : mdval) : Tree :=
   match v with
   | MNone => L [I 0]
   | MStr s => L [I 1; eLZ s]
-  | MInt z => L [I 2; I z]
-  | MFloat z => L [I 3; I z]
+  | MInt z => L [I 2; eBig z]
+  | MFloat z => L [I 3; eBig z]
   | MBool b => L [I 4; eB b]
   | MList l => L [I 5; eStrs l]
   end.
@@ -34,7 +43,7 @@ Definition tGmd (t : Tree) : list (str * (str * str)) :=
 
 (* L [oids; sids; fmt; cs; omd; smd; type; id; ogmd; sgmd] *)
 Definition tState (t : Tree) : state :=
-  mkSt (tStrs (tnth t 0)) (tStrs (tnth t 1)) (tFmt (tnth t 2)) (tCS (tnth t 3))
+  mkSt (tStrs (tnth t 0)) (tStrs (tnth t 1)) (tFmt (tnth t 2)) (tCSbig (tnth t 3))
        (tMd (tnth t 4)) (tMd (tnth t 5)) (tOpt tLZ (tnth t 6)) (tOpt tLZ (tnth t 7))
        (tGmd (tnth t 8)) (tGmd (tnth t 9)).
 
@@ -44,14 +53,14 @@ Definition eAval (v : aval) : Tree :=
   match v with AStr b => L [I 0; eLZ b] | AInt z => L [I 1; I z] | AInts l => L [I 2; eLZ l] end.
 Definition eDset (pd : path * dset) : Tree :=
   let d := snd pd in
-  L [eStrs (fst pd); eKind (d_kind d); eLN (d_shape d); eLZ (d_num d); eStrs (d_str d);
+  L [eStrs (fst pd); eKind (d_kind d); eLN (d_shape d); eBigs (d_num d); eStrs (d_str d);
      L (map (fun kv => L [eLZ (fst kv); eLZ (snd kv)]) (d_attrs d))].
 Definition eH5 (f : h5) : Tree :=
   L [L (map (fun kv => L [eLZ (fst kv); eAval (snd kv)]) (attrs f));
      L (map eStrs (groups f));
      L (map eDset (dsets f))].
 Definition eLoaded (l : loaded) : Tree :=
-  L [eStrs (l_oids l); eStrs (l_sids l); eLLZ (l_mat l); eMd (l_omd l); eMd (l_smd l);
+  L [eStrs (l_oids l); eStrs (l_sids l); L (map eBigs (l_mat l)); eMd (l_omd l); eMd (l_smd l);
      eOpt eLZ (l_type l); eLZ (l_id l); eLZ (l_genby l); eLZ (l_date l);
      L (map (fun kv => L [eLZ (fst kv); eLZ (snd kv)]) (l_ogmd l));
      L (map (fun kv => L [eLZ (fst kv); eLZ (snd kv)]) (l_sgmd l))].
